@@ -1,6 +1,7 @@
 package main
 
 import (
+	"unicode"
 	"verif/engine/core"
 	"verif/engine/peg"
 	"verif/engine/rtapi"
@@ -102,6 +103,61 @@ func runC01(c *ShardCtx) {
 			return
 		}
 		optGrammarVsReference(c, wrapFirst(ga.g), []core.Gen{{OptGrammar: true}, {OptGrammar: true, Optimize: true, BasicLatin: true}}, inputs5, "-optimize-grammar")
+	}
+	// family 6: case sweep. EVERY rune with a case variant (below U+3000 and in the later cased
+	// blocks) as an i-flagged literal, as the first rune of a longer i-flagged literal and as an
+	// i-flagged one-rune class, each against every member of its case orbit (lower, upper, title,
+	// simple folds) and a neighbour; 8 runes = 24 rules per grammar, selected with Entrypoint
+	{
+		var cased []rune
+		for _, blk := range [][2]rune{{0x41, 0x2FFF}, {0xA640, 0xA7FF}, {0xAB70, 0xABBF}, {0xFF21, 0xFF5A}, {0x10400, 0x1044F}, {0x1E900, 0x1E943}} {
+			for r := blk[0]; r <= blk[1]; r++ {
+				if unicode.ToLower(r) != r || unicode.ToUpper(r) != r || unicode.ToTitle(r) != r || unicode.SimpleFold(r) != r {
+					cased = append(cased, r)
+				}
+			}
+		}
+		for at := 0; at < len(cased); at += 8 {
+			idx++
+			if !c.Mine(idx) {
+				continue
+			}
+			if c.Expired("family 6") {
+				return
+			}
+			end := at + 8
+			if end > len(cased) {
+				end = len(cased)
+			}
+			var rules []*peg.Rule
+			var eps []rtapi.RunOpts
+			seen := map[string]bool{}
+			var ins [][]byte
+			addIn := func(s string) {
+				if !seen[s] {
+					seen[s] = true
+					ins = append(ins, []byte(s))
+				}
+			}
+			for k, r := range cased[at:end] {
+				names := []string{"L" + itoa(k), "M" + itoa(k), "K" + itoa(k)}
+				rules = append(rules, &peg.Rule{Name: names[0], Expr: peg.LitI(string(r))}, &peg.Rule{Name: names[1], Expr: peg.LitI(string(r) + "eP")},
+					&peg.Rule{Name: names[2], Expr: peg.Cls(false, true, string(r))})
+				for _, nm := range names {
+					eps = append(eps, rtapi.RunOpts{MaxExpr: 100, Entrypoint: strp(nm)})
+				}
+				orbit := []rune{r, unicode.ToLower(r), unicode.ToUpper(r), unicode.ToTitle(r), r + 1}
+				for f := unicode.SimpleFold(r); f != r; f = unicode.SimpleFold(f) {
+					orbit = append(orbit, f)
+				}
+				for _, x := range orbit {
+					addIn(string(x))
+					addIn(string(x) + "Ep")
+				}
+			}
+			fam6 := &family{gens: gens4, inputs: ins, opts: eps, nontrivial: func(ref *peg.Result, _ *rtapi.Obs) bool { return ref.Matched }, confEvery: 97, confQuota: 1}
+			runGrammar(c, wrap(peg.Lit("q"), rules...), fam6)
+		}
 	}
 	// family 4: every single label+action decoration
 	n4 := 4
